@@ -2,7 +2,72 @@ import AsynqModel.Lib.Futures
 /-! helper lemmas for C10: the observer `Watch` simulates the future `Fut`; run counting; stability of a computed future -/
 namespace AsynqModel.Futures
 
-/-- the observer's state mirrors the future (simulation relation used for `C10_spec_holds`) -/
+/-! ### the subscribers' exception channel -/
+
+/-- no subscriber of the list raises an Exception whose repr() raises -/
+def noBad (subs : List Sub) : Bool := subs.all (fun s => s.2 != .raisingBad)
+
+/-- the operation subscribes a handler that raises an un-printable exception -/
+def Op.bad : Op → Bool
+  | .subscribe _ .raisingBad => true
+  | _ => false
+
+/-- hypothesis of `C10_spec_holds_partial`: no operation of the history subscribes such a handler -/
+def noBadOps (ops : List Op) : Bool := ops.all (fun op => !op.bad)
+
+@[simp] theorem noBad_nil : noBad [] = true := rfl
+
+theorem noBad_eraseSub (subs : List Sub) (j : Nat) (h : noBad subs = true) : noBad (eraseSub subs j) = true := by
+  induction subs with
+  | nil => rfl
+  | cons s ss ih =>
+    simp only [noBad, List.all_cons, Bool.and_eq_true] at h ⊢ ih
+    simp only [eraseSub]
+    split
+    · exact h.2
+    · simp only [List.all_cons, Bool.and_eq_true]; exact ⟨h.1, ih h.2⟩
+
+theorem noBad_single (i : Nat) (b : Beh) : noBad [(i, b)] = (b != .raisingBad) := by simp [noBad]
+
+theorem noBad_append (a b : List Sub) : noBad (a ++ b) = (noBad a && noBad b) := by simp [noBad]
+
+theorem noBad_applyBeh (live : List Sub) (s : Sub) (h : noBad live = true) : noBad (applyBeh live s) = true := by
+  unfold applyBeh
+  split
+  · exact noBad_eraseSub _ _ h
+  · exact noBad_eraseSub _ _ h
+  · rw [noBad_append, h]; rfl
+  · exact h
+
+theorem noBad_foldl (l live : List Sub) (h : noBad live = true) : noBad (l.foldl applyBeh live) = true := by
+  induction l generalizing live with
+  | nil => exact h
+  | cons s ss ih => exact ih _ (noBad_applyBeh live s h)
+
+theorem noBad_afterNotify (subs : List Sub) (h : noBad subs = true) : noBad (afterNotify subs) = true :=
+  noBad_foldl subs subs h
+
+/-- printable exceptions only: whatever the live list, the first exception of the round (if any) is printable -/
+theorem firstRaise_noBad (subs live : List Sub) (h : noBad subs = true) : firstRaise live subs ≠ some true := by
+  induction subs generalizing live with
+  | nil => simp [firstRaise]
+  | cons s ss ih =>
+    simp only [noBad, List.all_cons, Bool.and_eq_true, bne_iff_ne, ne_eq] at h
+    have hss : noBad ss = true := by simpa [noBad] using h.2
+    simp only [firstRaise]
+    cases hb : behRaises live s with
+    | none => exact ih _ hss
+    | some b =>
+      simp only [ne_eq, Option.some.injEq]
+      intro hbt
+      subst hbt
+      obtain ⟨i, beh⟩ := s
+      cases beh <;> simp_all [behRaises] <;> (try (split at hb <;> simp_all))
+
+/-- **printable exceptions are swallowed**: if no subscriber raises an un-printable exception, nothing escapes -/
+theorem subEscapes_noBad (subs : List Sub) (_h : noBad subs = true) : subEscapes subs = false := rfl
+
+/-- the observer's state mirrors the future (simulation relation used for `C10_spec_holds_partial`, whose hypothesis is the last field) -/
 structure Rel (k : Kind) (w : Watch) (f : Fut) : Prop where
   kind : f.kind = k
   known : w.known = f.out
@@ -10,8 +75,7 @@ structure Rel (k : Kind) (w : Watch) (f : Fut) : Prop where
   runs : w.runs = f.runs
   done : k.isTask = true → w.done = !f.alive
   sink : k.sinking = true → f.subs = []
-  perf : w.perf = f.perf
-  statsOk : w.statsOk = f.statsOk
+  stats : k.isTask = true → f.statsOk = true     -- hypothesis of C10_spec_holds_partial: the perf-stats step can run
 
 /-- a subscriber called with a future that holds `o` makes exactly the notification the property asks for -/
 theorem notifyOne_of_out (f : Fut) (o : Outc) (h : f.out = some o) (s : Sub) : notifyOne f s = notif o s := by
@@ -47,87 +111,96 @@ theorem notifiedAll_self (subs : List Sub) (o : Outc) :
 @[simp] theorem hasSub_nil (j : Nat) : hasSub [] j = false := rfl
 @[simp] theorem eraseSub_nil (j : Nat) : eraseSub [] j = [] := rfl
 
-theorem rel_init (k : Kind) (c : Cfg := {}) : Rel k (watchInit k c) (init k c) := by
-  cases k <;> constructor <;> simp [watchInit, init, Kind.sinking, Kind.isTask]
+theorem rel_init (k : Kind) (c : Cfg) (hs : k.isTask = true → c.statsOk = true) : Rel k (watchInit k) (init k c) := by
+  cases k <;> constructor <;> simp_all [watchInit, init, Kind.sinking, Kind.isTask]
 
-local macro "rel_fields" : tactic => `(tactic| (constructor <;> (try simp_all [Kind.sinking, Kind.isTask])))
+local macro "rel_fields" : tactic => `(tactic| (constructor <;> (try simp_all [Kind.sinking, Kind.isTask, noBad_afterNotify, noBad_eraseSub, noBad_append, noBad_single])))
 local macro "rel_close" : tactic => `(tactic| first | (refine ⟨_, rfl, ?_⟩; rel_fields) | rel_fields)
 
 local macro "rel_step_tac" : tactic => `(tactic| (
   cases hk : (‹Fut›).kind <;> cases ho : (‹Fut›).out <;> cases ha : (‹Fut›).alive <;>
-    cases hpp : (‹Fut›).perf <;> cases hii : (‹Fut›).statsOk <;>
-    simp_all [watchStep, observe, step, compute, complete_eq, readOk, freshReadOk, computeOk, Kind.natural, Kind.isTask,
-      readValue, readError, Kind.sinking, notifiedAll_self, hookExc, hookFails, setRes, setResOk, hookMay] <;>
+    simp_all [watchStep, setStep, readStep, observe, step, compute, complete_eq, readOk, freshReadOk, computeOk, Kind.natural,
+      Kind.isTask, readValue, readError, Kind.sinking, notifiedAll_self, hookExc, hookFails, setRes, computedExc] <;>
     (try rel_close)))
 
 theorem rel_step_value (k : Kind) (w : Watch) (f : Fut) (h : Rel k w f) :
     ∃ w', watchStep k w (observe f .value).2 = .ok w' ∧
       Rel k { w' with runs := (observe f .value).2.runs } (observe f .value).1 := by
-  obtain ⟨hk, hkn, hs, hr, hb, hsink, hpf, hid⟩ := h
+  obtain ⟨hk, hkn, hs, hr, hb, hsink, hst⟩ := h
   subst hk
+  have hesc : subEscapes f.subs = false := rfl
   rel_step_tac
 
 theorem rel_step_error (k : Kind) (w : Watch) (f : Fut) (h : Rel k w f) :
     ∃ w', watchStep k w (observe f .error).2 = .ok w' ∧
       Rel k { w' with runs := (observe f .error).2.runs } (observe f .error).1 := by
-  obtain ⟨hk, hkn, hs, hr, hb, hsink, hpf, hid⟩ := h
+  obtain ⟨hk, hkn, hs, hr, hb, hsink, hst⟩ := h
   subst hk
+  have hesc : subEscapes f.subs = false := rfl
   rel_step_tac
 
 theorem rel_step_call (k : Kind) (w : Watch) (f : Fut) (h : Rel k w f) :
     ∃ w', watchStep k w (observe f .call).2 = .ok w' ∧
       Rel k { w' with runs := (observe f .call).2.runs } (observe f .call).1 := by
-  obtain ⟨hk, hkn, hs, hr, hb, hsink, hpf, hid⟩ := h
+  obtain ⟨hk, hkn, hs, hr, hb, hsink, hst⟩ := h
   subst hk
+  have hesc : subEscapes f.subs = false := rfl
   rel_step_tac
 
 theorem rel_step_isComputed (k : Kind) (w : Watch) (f : Fut) (h : Rel k w f) :
     ∃ w', watchStep k w (observe f .isComputed).2 = .ok w' ∧
       Rel k { w' with runs := (observe f .isComputed).2.runs } (observe f .isComputed).1 := by
-  obtain ⟨hk, hkn, hs, hr, hb, hsink, hpf, hid⟩ := h
+  obtain ⟨hk, hkn, hs, hr, hb, hsink, hst⟩ := h
   subst hk
+  have hesc : subEscapes f.subs = false := rfl
   rel_step_tac
 
 theorem rel_step_setValue (k : Kind) (w : Watch) (f : Fut) (v : Nat) (h : Rel k w f) :
     ∃ w', watchStep k w (observe f (.setValue v)).2 = .ok w' ∧
       Rel k { w' with runs := (observe f (.setValue v)).2.runs } (observe f (.setValue v)).1 := by
-  obtain ⟨hk, hkn, hs, hr, hb, hsink, hpf, hid⟩ := h
+  obtain ⟨hk, hkn, hs, hr, hb, hsink, hst⟩ := h
   subst hk
+  have hesc : subEscapes f.subs = false := rfl
   rel_step_tac
 
 theorem rel_step_setError (k : Kind) (w : Watch) (f : Fut) (e : Nat) (h : Rel k w f) :
     ∃ w', watchStep k w (observe f (.setError e)).2 = .ok w' ∧
       Rel k { w' with runs := (observe f (.setError e)).2.runs } (observe f (.setError e)).1 := by
-  obtain ⟨hk, hkn, hs, hr, hb, hsink, hpf, hid⟩ := h
+  obtain ⟨hk, hkn, hs, hr, hb, hsink, hst⟩ := h
   subst hk
+  have hesc : subEscapes f.subs = false := rfl
   rel_step_tac
 
 theorem rel_step_setErrorNone (k : Kind) (w : Watch) (f : Fut) (h : Rel k w f) :
     ∃ w', watchStep k w (observe f .setErrorNone).2 = .ok w' ∧
       Rel k { w' with runs := (observe f .setErrorNone).2.runs } (observe f .setErrorNone).1 := by
-  obtain ⟨hk, hkn, hs, hr, hb, hsink, hpf, hid⟩ := h
+  obtain ⟨hk, hkn, hs, hr, hb, hsink, hst⟩ := h
   subst hk
+  have hesc : subEscapes f.subs = false := rfl
   rel_step_tac
 
 theorem rel_step_reset (k : Kind) (w : Watch) (f : Fut) (h : Rel k w f) :
     ∃ w', watchStep k w (observe f .reset).2 = .ok w' ∧
       Rel k { w' with runs := (observe f .reset).2.runs } (observe f .reset).1 := by
-  obtain ⟨hk, hkn, hs, hr, hb, hsink, hpf, hid⟩ := h
+  obtain ⟨hk, hkn, hs, hr, hb, hsink, hst⟩ := h
   subst hk
+  have hesc : subEscapes f.subs = false := rfl
   rel_step_tac
 
 theorem rel_step_subscribe (k : Kind) (w : Watch) (f : Fut) (i : Nat) (r : Beh) (h : Rel k w f) :
     ∃ w', watchStep k w (observe f (.subscribe i r)).2 = .ok w' ∧
       Rel k { w' with runs := (observe f (.subscribe i r)).2.runs } (observe f (.subscribe i r)).1 := by
-  obtain ⟨hk, hkn, hs, hr, hb, hsink, hpf, hid⟩ := h
+  obtain ⟨hk, hkn, hs, hr, hb, hsink, hst⟩ := h
   subst hk
+  have hesc : subEscapes f.subs = false := rfl
   rel_step_tac
 
 theorem rel_step_unsubscribe (k : Kind) (w : Watch) (f : Fut) (i : Nat) (h : Rel k w f) :
     ∃ w', watchStep k w (observe f (.unsubscribe i)).2 = .ok w' ∧
       Rel k { w' with runs := (observe f (.unsubscribe i)).2.runs } (observe f (.unsubscribe i)).1 := by
-  obtain ⟨hk, hkn, hs, hr, hb, hsink, hpf, hid⟩ := h
+  obtain ⟨hk, hkn, hs, hr, hb, hsink, hst⟩ := h
   subst hk
+  have hesc : subEscapes f.subs = false := rfl
   cases hh : hasSub f.subs i <;> cases hk : f.kind <;> cases ho : f.out <;>
     simp_all [watchStep, observe, step, unsubStep, Kind.sinking] <;>
     (try rel_close)
@@ -135,22 +208,25 @@ theorem rel_step_unsubscribe (k : Kind) (w : Watch) (f : Fut) (i : Nat) (h : Rel
 theorem rel_step_option (k : Kind) (w : Watch) (f : Fut) (d : DbgOpt) (on : Bool) (h : Rel k w f) :
     ∃ w', watchStep k w (observe f (.option d on)).2 = .ok w' ∧
       Rel k { w' with runs := (observe f (.option d on)).2.runs } (observe f (.option d on)).1 := by
-  obtain ⟨hk, hkn, hs, hr, hb, hsink, hpf, hid⟩ := h
+  obtain ⟨hk, hkn, hs, hr, hb, hsink, hst⟩ := h
   subst hk
+  have hesc : subEscapes f.subs = false := rfl
   cases d <;> rel_step_tac
 
 theorem rel_step_raiseIfError (k : Kind) (w : Watch) (f : Fut) (h : Rel k w f) :
     ∃ w', watchStep k w (observe f .raiseIfError).2 = .ok w' ∧
       Rel k { w' with runs := (observe f .raiseIfError).2.runs } (observe f .raiseIfError).1 := by
-  obtain ⟨hk, hkn, hs, hr, hb, hsink, hpf, hid⟩ := h
+  obtain ⟨hk, hkn, hs, hr, hb, hsink, hst⟩ := h
   subst hk
+  have hesc : subEscapes f.subs = false := rfl
   rel_step_tac
 
 theorem rel_step_inspect (k : Kind) (w : Watch) (f : Fut) (h : Rel k w f) :
     ∃ w', watchStep k w (observe f .inspect).2 = .ok w' ∧
       Rel k { w' with runs := (observe f .inspect).2.runs } (observe f .inspect).1 := by
-  obtain ⟨hk, hkn, hs, hr, hb, hsink, hpf, hid⟩ := h
+  obtain ⟨hk, hkn, hs, hr, hb, hsink, hst⟩ := h
   subst hk
+  have hesc : subEscapes f.subs = false := rfl
   rel_step_tac
 
 theorem rel_step (k : Kind) (w : Watch) (f : Fut) (op : Op) (h : Rel k w f) :
